@@ -250,18 +250,47 @@ def subst(e: ast.expr, store: Dict[str, ast.expr]) -> ast.expr:
 class _Simplify(ast.NodeTransformer):
     """Projections of literal tuples: (a, b)[1] -> b."""
 
+    def visit_BinOp(self, n: ast.BinOp):
+        """integer arithmetic on literals: (a, b)[1 - 0] -> (a, b)[1]"""
+        self.generic_visit(n)
+        if isinstance(n.left, ast.Constant) and isinstance(n.right, ast.Constant) and type(n.left.value) is int and type(n.right.value) is int and isinstance(n.op, (ast.Add, ast.Sub, ast.Mult)):
+            a, b = n.left.value, n.right.value
+            return ast.Constant(value=a + b if isinstance(n.op, ast.Add) else (a - b if isinstance(n.op, ast.Sub) else a * b))
+        if isinstance(n.op, ast.Add) and isinstance(n.left, ast.Tuple) and isinstance(n.right, ast.Tuple) and not any(isinstance(x, ast.Starred) for x in n.left.elts + n.right.elts):
+            return ast.Tuple(elts=list(n.left.elts) + list(n.right.elts), ctx=ast.Load())  # (a, b) + (c,) -> (a, b, c)
+        return n
+
     def visit_Subscript(self, n: ast.Subscript):
         self.generic_visit(n)
         if isinstance(n.value, (ast.Tuple, ast.List)) and isinstance(n.slice, ast.Constant) and isinstance(n.slice.value, int) and not any(isinstance(x, ast.Starred) for x in n.value.elts):
             k = n.slice.value
             if -len(n.value.elts) <= k < len(n.value.elts):
                 return n.value.elts[k]
+        if isinstance(n.value, (ast.Tuple, ast.List)) and isinstance(n.slice, ast.Slice) and n.slice.step is None and not any(isinstance(x, ast.Starred) for x in n.value.elts):
+            lo, hi = n.slice.lower, n.slice.upper
+            if (lo is None or (isinstance(lo, ast.Constant) and type(lo.value) is int)) and (hi is None or (isinstance(hi, ast.Constant) and type(hi.value) is int)):
+                elts = n.value.elts[(lo.value if lo is not None else None) : (hi.value if hi is not None else None)]
+                return type(n.value)(elts=list(elts), ctx=ast.Load())  # (a, b, c)[1:] -> (b, c)
         return n
 
 
     def visit_Call(self, n: ast.Call):
-        """f(*(a, b, c)) -> f(a, b, c)"""
+        """f(*(a, b, c)) -> f(a, b, c);  map(f, (a, b)) -> [f(a), f(b)];  reversed((a, b)) -> (b, a);  any/all over a literal -> or/and"""
         self.generic_visit(n)
+        if isinstance(n.func, ast.Name) and not n.keywords:
+            lit = lambda e: isinstance(e, (ast.Tuple, ast.List)) and len(e.elts) <= 8 and not any(isinstance(x, ast.Starred) for x in e.elts)
+            if n.func.id == "map" and len(n.args) == 2 and lit(n.args[1]) and isinstance(n.args[0], (ast.Name, ast.Attribute)):
+                return ast.List(elts=[ast.Call(func=copy.deepcopy(n.args[0]), args=[x], keywords=[]) for x in n.args[1].elts], ctx=ast.Load())
+            if n.func.id == "reversed" and len(n.args) == 1 and lit(n.args[0]):
+                return ast.Tuple(elts=list(reversed(n.args[0].elts)), ctx=ast.Load())
+            if n.func.id in ("tuple", "list") and len(n.args) == 1 and lit(n.args[0]):
+                return (ast.Tuple if n.func.id == "tuple" else ast.List)(elts=list(n.args[0].elts), ctx=ast.Load())
+            if n.func.id in ("any", "all") and len(n.args) == 1:
+                a = n.args[0]
+                if isinstance(a, ast.GeneratorExp):
+                    a = self.visit_ListComp(ast.ListComp(elt=a.elt, generators=a.generators))
+                if isinstance(a, (ast.List, ast.Tuple)) and a.elts and len(a.elts) <= 8:
+                    return ast.BoolOp(op=ast.Or() if n.func.id == "any" else ast.And(), values=list(a.elts)) if len(a.elts) > 1 else a.elts[0]
         if any(isinstance(a, ast.Starred) and isinstance(a.value, (ast.Tuple, ast.List)) and not any(isinstance(x, ast.Starred) for x in a.value.elts) for a in n.args):
             args = []
             for a in n.args:
@@ -281,6 +310,12 @@ class _Simplify(ast.NodeTransformer):
                 elts = [self.visit(_Sub({g.target.id: x}).visit(copy.deepcopy(n.elt))) for x in g.iter.elts]
                 return ast.List(elts=elts, ctx=ast.Load())
         return n
+
+
+    def visit_GeneratorExp(self, n: ast.GeneratorExp):
+        """(f(x) for x in (a, b, c)) over a literal: the members it yields, written out (it is consumed once: unpacking, any/all, sum)"""
+        r = self.visit_ListComp(ast.ListComp(elt=n.elt, generators=n.generators))
+        return r if isinstance(r, ast.List) else n
 
 
 def _simplify(e: ast.AST) -> ast.AST:
